@@ -14,11 +14,13 @@ import (
 	"sort"
 	"strings"
 	"testing"
+	"testing/synctest"
 
 	"github.com/vektah/gqlparser/v2"
 	gast "github.com/vektah/gqlparser/v2/ast"
 
 	"verif/internal/fedlab"
+	"verif/internal/fedorders"
 	"verif/internal/refexec"
 	"verif/internal/vk"
 )
@@ -40,6 +42,13 @@ func mustSchema(sdl string) *gast.Schema {
 	return s
 }
 
+// curated operations: the same entity reached through two paths (identical
+// subgraph requests in flight together), chains of @requires
+var curated = map[string][]string{
+	"S-core": {`{me {nick} user(id: "u1") {nick}}`, `{me {reviews {body}} user(id: "u1") {reviews {body}}}`, `{me {favorite {title}} topProducts(first: 1) {title}}`},
+	"S-req":  {`{items {summary}}`, `{items {id summary volume}}`, `{boxes {content {summary}}}`, `{item(id: "i1") {summary shipping}}`},
+}
+
 var faultKinds = []string{"transport-error", "http-500-empty", "http-200-empty", "http-200-nonjson", "errors-without-data", "entities-one-short", "entities-one-long"}
 
 func families(run *vk.Run) []*family {
@@ -55,6 +64,9 @@ func families(run *vk.Run) []*family {
 			f.layouts = append(f.layouts, fedlab.ByType(s, n, b, fmt.Sprintf("base%d", bi)))
 		}
 		f.ops = fedlab.GenOps(fedlab.GenConfig{Schema: f.schema, Widths: vk.Pick(run, []int{1, 2, 1}, []int{1, 2, 2}), ArgMenu: menu}, "query")
+		for _, q := range curated[name] {
+			f.ops = append(f.ops, &fedlab.Op{Kind: "query", Raw: q})
+		}
 		return f
 	}
 	core, abs, req := fedlab.SCore(), fedlab.SAbs(), fedlab.SReq()
@@ -99,6 +111,17 @@ func families(run *vk.Run) []*family {
 			switch r.String() {
 			case "Item.shipping", "Item.volume", "Query.boxes", "Box.size", "Box.content":
 				return 1
+			}
+			return 0
+		}, func(r fedlab.FieldRef) int {
+			// a chain: dims (0) -> volume @requires(dims) (1) -> summary @requires(volume) (2), price/weight (3) -> shipping (1)
+			switch r.String() {
+			case "Item.shipping", "Item.volume", "Query.boxes", "Box.size", "Box.content":
+				return 1
+			case "Item.summary", "Maker.label":
+				return 2
+			case "Item.price", "Item.weight":
+				return 3
 			}
 			return 0
 		}),
@@ -146,6 +169,28 @@ func pathKey(p []any) string {
 	return sb.String()
 }
 
+type execObs struct {
+	out  []byte
+	reqs []*fedlab.Request
+	err  error
+}
+
+// gatedExec runs one execution inside the bubble with every subgraph request
+// parked and released in canonical order: identical requests overlap (so the
+// subgraph single flight is exercised) and a wedged execution is detected by
+// quiescence, not by a clock.
+func gatedExec(lab *fedlab.Lab, q string) (execObs, bool) {
+	x := fedorders.RunOne(lab.Sim, nil, func() any {
+		out, reqs, err := lab.Exec(q, "", nil)
+		return execObs{out, reqs, err}
+	})
+	if x.Stuck {
+		return execObs{}, true
+	}
+	o, _ := x.Obs.(execObs)
+	return o, false
+}
+
 // faultFree runs the operation without faults, recording provenance.
 func faultFree(f *family, lab *fedlab.Lab, q string) (*baseline, error) {
 	b := &baseline{byKey: map[string][]string{}, canon: map[string][]string{}, prov: map[string]map[string]bool{}, types: map[string]*gast.Type{}}
@@ -157,8 +202,12 @@ func faultFree(f *family, lab *fedlab.Lab, q string) (*baseline, error) {
 		}
 		b.prov[k][r.Key()] = true
 	}
-	out, reqs, err := lab.Exec(q, "", nil)
+	o, stuck := gatedExec(lab, q)
 	lab.Sim.Provenance = nil
+	if stuck {
+		return nil, fmt.Errorf("fault-free execution wedged")
+	}
+	out, reqs, err := o.out, o.reqs, o.err
 	if err != nil {
 		return nil, err
 	}
@@ -392,7 +441,11 @@ func judgeFault(f *family, lab *fedlab.Lab, q string, b *baseline, F []string, k
 		return 200, nb
 	}
 	defer func() { lab.Sim.Intercept, lab.Sim.PostProcess = nil, nil }()
-	out, reqs, err := lab.Exec(q, "", nil)
+	o, stuck := gatedExec(lab, q)
+	if stuck {
+		return "wedged", []fail{{"the gateway still returns promptly one well-formed response", "execution wedged with no request in flight", "the engine call never returned although every subgraph request had been answered"}}
+	}
+	out, reqs, err := o.out, o.reqs, o.err
 	if !applicable {
 		return "n/a", nil
 	}
@@ -582,6 +635,10 @@ func subsets(keys []string, max int) [][]string {
 func TestCheck(t *testing.T) {
 	run := vk.Start("C07", "fault_enumeration")
 	defer run.Finish()
+	synctest.Test(t, func(t *testing.T) { check(t, run) })
+}
+
+func check(t *testing.T, run *vk.Run) {
 	run.Rule("sub-corpus of (layout, operation) with 2..6 emitted subgraph requests; for each, every non-empty set F of emitted requests (matched by subgraph+operation text) with |F| <= bound x every fault kind; distinct = distinct (operation, F, kind, outcome)")
 	run.Assume("provenance from the reference executor and the subgraph simulator: which fault-free request supplied which (object, field)",
 		"dependents of a failed request are over-approximated (any later request carrying representations), which only weakens the 'unexplained null' and 'independent request' clauses",
